@@ -212,7 +212,7 @@ def discharge(ob, timeout_s=10, second_solver=False):
         # quantifier instantiation is order sensitive (the same query is refuted in 10 ms or not in 10 s):
         # several short attempts with different seeds before a long one
         for seed, mbqi in ((0, True), (1, True), (2, False), (3, True), (4, False)):
-            st, model, solver = _check(query, 800, seed=seed, mbqi=mbqi)
+            st, model, solver = _check(query, 1200, seed=seed, mbqi=mbqi)
             if st == SAT:
                 ob.backend = "z3-5.1(py) (model of the quantified query)"
             if st != UNKNOWN:
@@ -252,7 +252,10 @@ def discharge(ob, timeout_s=10, second_solver=False):
             else:
                 if has_q:
                     # last resort before giving up: the seeded attempts once more with a generous budget
-                    for seed, mbqi in ((0, True), (2, False), (5, True), (7, False)):
+                    # (all configurations of the short attempts again - which of them is the lucky one differs between obligations -
+                    # with ten times their budget, so that a machine that delivers half the work per CPU second under load, or less,
+                    # still reaches the same verdict; then two more seeds)
+                    for seed, mbqi in ((0, True), (1, True), (2, False), (3, True), (4, False), (5, True), (7, False)):
                         st, model, _s = _check(query, 8000, seed=seed, mbqi=mbqi)
                         if st == UNSAT:
                             ob.backend = "z3-5.1(py) (long attempt)"
@@ -260,6 +263,9 @@ def discharge(ob, timeout_s=10, second_solver=False):
                         if st == SAT:
                             ob.backend = "z3-5.1(py) (model of the quantified query)"
                             break
+                if st == UNKNOWN and has_q and external(smt2, "z3-4.8", 60) == UNSAT:
+                    st, model = UNSAT, None
+                    ob.backend = "z3-4.8 (long attempt)"
                 if st != UNKNOWN:
                     pass
                 elif st2 == SAT:
